@@ -1,7 +1,300 @@
-(* C16 — statements only (stub while the proofs are being written). *)
-From Coq Require Import List String ZArith QArith Bool.
-From TFV Require Import State.VarsManager.
+(* C16 — statements only.  Each closed by [exact] of a lemma from State/VarsManager_proofs.v or
+   Lik/Bound_proofs.v.  The state machine [step] (State/VarsManager.v) transcribes
+   tf_pwa.variable.VarsManager; histories are arbitrary lists of operations run from [init]. *)
+From Coq Require Import List String ZArith QArith Bool Reals.
+From Coquelicot Require Import Coquelicot.
+From TFV Require Import State.VarsManager State.VarsManager_proofs Lik.Bound Lik.Bound_proofs.
 Import ListNotations.
 Open Scope string_scope.
-Example C16_stub : @init Q = @init Q.
-Proof. reflexivity. Qed.
+Open Scope list_scope.
+
+(* ---- reading all parameters and writing them back changes nothing (any state, any value type) *)
+Theorem C16_get_set_all_identity :
+  forall (V : Type) (s : state V), set_all_dict (dic_for_set s) false s = s.
+Proof. intros. exact (get_set_all_identity s). Qed.
+Print Assumptions C16_get_set_all_identity.
+
+Theorem C16_get_set_all_list_identity :
+  forall (V : Type) (s : state V),
+    (forall n, In n (trainable s) -> read s n <> None) ->
+    set_all_list (map (fun v => (v, v)) (all_val s)) false s = s.
+Proof. intros V s. exact (get_set_all_list_identity s). Qed.
+Print Assumptions C16_get_set_all_list_identity.
+
+(* ---- a tied group counts once: the free-parameter list has no duplicates and no two free names
+   share a cell, after EVERY history (any interleaving of create / fix / free / tie / share_r /
+   bound / set / set_all / refresh / coordinate changes / standardise) in which a name is freed only
+   when no other free name shares its cell ([count_safe]; automatically true in configuration order,
+   where fix/free precedes tie) and no rename/remove occurs. *)
+Theorem C16_tied_count_once :
+  forall (V : Type) (h : list (op V)),
+    hist_ok count_safe init h = true ->
+    NoDup (trainable (run init h)) /\ one_per_cell (run init h).
+Proof.
+  intros V h H. destruct (tied_count_once h init count_inv_init H) as (A & B & _). split; assumption.
+Qed.
+Print Assumptions C16_tied_count_once.
+
+(* the hypothesis is needed: freeing a tied name after the tie (outside configuration order) *)
+Theorem C16_unfix_after_tie_counts_twice :
+  trainable (run init unfix_after_tie) = ["a"; "b"] /\
+  dget "a" (vars (run init unfix_after_tie)) = dget "b" (vars (run init unfix_after_tie)) /\
+  hist_ok count_safe init unfix_after_tie = false.
+Proof. exact unfix_after_tie_counts_twice. Qed.
+Print Assumptions C16_unfix_after_tie_counts_twice.
+
+(* ---- value-phase operations never re-point a name, change the free list or the tie groups *)
+Theorem C16_value_ops_keep_structure :
+  forall (V : Type) (h : list (op V)) (s : state V),
+    forallb value_op h = true ->
+    vars (run s h) = vars s /\ trainable (run s h) = trainable s /\ same (run s h) = same s.
+Proof.
+  intros V h s H. destruct (value_ops_frame h s H) as (A & B & _ & C & _). repeat split; assumption.
+Qed.
+Print Assumptions C16_value_ops_keep_structure.
+
+(* ---- tied parameters always read the same value: after a tie request on names none of which is
+   tied yet ([untied_reals]: the request neither merges nor extends groups), through EVERY sequence
+   of value assignments, bulk loads, re-randomisations, coordinate switches, standardisations *)
+Theorem C16_tied_read_equal :
+  forall (V : Type) (s : state V) ns h,
+    untied_reals ns s -> forallb value_op h = true ->
+    forall a b, In a ns -> In b ns ->
+      read (run (step s (SetSame ns false)) h) a = read (run (step s (SetSame ns false)) h) b.
+Proof. intros V s ns h. exact (tied_read_equal s ns h). Qed.
+Print Assumptions C16_tied_read_equal.
+
+Theorem C16_tied_read_equal_cplx :
+  forall (V : Type) (s : state V) ns h,
+    untied_cplxs ns s -> forallb value_op h = true ->
+    forall a b, In a ns -> In b ns ->
+      let s' := run (step s (SetSame ns true)) h in
+      read s' (nr a) = read s' (nr b) /\ read s' (ni a) = read s' (ni b).
+Proof. intros V s ns h. exact (tied_read_equal_cplx s ns h). Qed.
+Print Assumptions C16_tied_read_equal_cplx.
+
+(* names that share a cell keep reading the same value through every value-phase history *)
+Theorem C16_ties_persist :
+  forall (V : Type) (s : state V) h a b,
+    forallb value_op h = true -> dget a (vars s) = dget b (vars s) -> read (run s h) a = read (run s h) b.
+Proof. intros V s h a b. exact (ties_persist s h a b). Qed.
+Print Assumptions C16_ties_persist.
+
+(* full statement (tie requests that extend ONE existing group are handled correctly by the code and
+   by the model - covered by the correspondence and the invariant run - but not proved here): *)
+Definition C16_tied_read_equal_full : Prop :=
+  forall (h : list (op Q)), hist_ok tie_safe init h = true ->
+    forall g a b, In g (same (run init h)) -> In a g -> In b g ->
+      dget a (vars (run init h)) <> None -> dget b (vars (run init h)) <> None ->
+      read (run init h) a = read (run init h) b.
+
+(* REFUTED outside that class (known finding F11): merging two groups / chaining complex ties *)
+Theorem C16_tied_read_refuted :
+  same (run init f11_history) = [["b"; "d"; "a"; "c"]] /\
+  read (run init f11_history) "a" = Some 9%Q /\ read (run init f11_history) "b" = Some 9%Q /\
+  read (run init f11_history) "c" = Some 9%Q /\ read (run init f11_history) "d" = Some 3%Q /\
+  forallb value_op [SetV "a" 9%Q 9%Q false] = true.
+Proof. exact tied_read_refuted. Qed.
+Print Assumptions C16_tied_read_refuted.
+
+Theorem C16_tied_chain_refuted :
+  same (run init f11c_history) = [["a1"; "a0"]; ["a2"; "a0"]] /\
+  trainable (run init f11c_history) = ["a1r"; "a1i"] /\
+  read (run init f11c_history) "a1r" = Some 3%Q /\ read (run init f11c_history) "a0r" = Some 5%Q /\
+  read (run init f11c_history) "a2r" = Some 5%Q.
+Proof. exact tied_chain_refuted. Qed.
+Print Assumptions C16_tied_chain_refuted.
+
+(* ---- a fixed parameter changes only when explicitly assigned: a cell in which no free name lives
+   is untouched by bulk loads (list form), re-randomisation and bound bookkeeping; an explicit
+   assignment touches only the cell of the named parameter *)
+Theorem C16_fixed_changes_only_by_set :
+  forall (V : Type) (s : state V) o c,
+    bulk_op o = true -> fixed_cell s c -> hget c (heap (step s o)) = hget c (heap s).
+Proof. intros V s o c. exact (fixed_changes_only_by_set s o c). Qed.
+Print Assumptions C16_fixed_changes_only_by_set.
+
+Theorem C16_explicit_set_only_target :
+  forall (V : Type) (s : state V) n v vb vif c,
+    dget n (vars s) <> Some c -> hget c (heap (step s (SetV n v vb vif))) = hget c (heap s).
+Proof. intros V s n v vb vif c. exact (explicit_set_only_target s n v vb vif c). Qed.
+Print Assumptions C16_explicit_set_only_target.
+
+Theorem C16_explicit_set_all_only_targets :
+  forall (V : Type) (s : state V) kv vif c,
+    (forall x, In x kv -> dget (fst x) (vars s) <> Some c) ->
+    hget c (heap (step s (SetAllDict kv vif))) = hget c (heap s).
+Proof. intros V s kv vif c. exact (explicit_set_all_only_targets s kv vif c). Qed.
+Print Assumptions C16_explicit_set_all_only_targets.
+
+(* ---- polar <-> Cartesian: rp2xy / xy2rp (single and _all) and std_polar keep the complex value of
+   EVERY complex parameter, for any interpretation [cv flag a b] of the two stored numbers, provided
+   the state is [flags_consistent] and [groups_closed] (complex parameters sharing a cell share both
+   cells, the polar flag and the tie group through which the flag is propagated) and the numbers the
+   code assigned satisfy the conversion contract (oracle: NumPy/TF cos, sin, sqrt, atan2, |r|, p+pi;
+   checked per call by Coq-Interval in the harness).  Both state conditions are preserved by the calls. *)
+Theorem C16_polar_switch_preserves_value :
+  forall (V C : Type) (cv : bool -> V -> V -> C) (s : state V) t n o zn,
+    flags_consistent s -> cvalue cv s n = Some zn ->
+    (forall a b, read s (nr n) = Some a -> read s (ni n) = Some b -> cv t (fst o) (snd o) = cv (negb t) a b) ->
+    forall m z, cvalue cv s m = Some z -> cvalue cv (conv t n o s) m = Some z.
+Proof. intros V C cv s t n o zn. exact (polar_switch_preserves_value cv s t n o zn). Qed.
+Print Assumptions C16_polar_switch_preserves_value.
+
+Theorem C16_conv_keeps_consistency :
+  forall (V : Type) (s : state V) t n o,
+    flags_consistent s -> groups_closed s ->
+    flags_consistent (conv t n o s) /\ groups_closed (conv t n o s).
+Proof. intros V s t n o. exact (conv_keeps_consistency s t n o). Qed.
+Print Assumptions C16_conv_keeps_consistency.
+
+Theorem C16_polar_switch_all_preserves_value :
+  forall (V C : Type) (cv : bool -> V -> V -> C) (s : state V) t ns o,
+    flags_consistent s -> groups_closed s -> contracts_ok cv t (names_or_all ns s) o s ->
+    forall m z, cvalue cv s m = Some z -> cvalue cv (step s (ConvAll t ns o)) m = Some z.
+Proof. intros V C cv s t ns o. exact (polar_switch_all_preserves_value cv s t ns o). Qed.
+Print Assumptions C16_polar_switch_all_preserves_value.
+
+Theorem C16_std_polar_preserves_value :
+  forall (V C : Type) (cv : bool -> V -> V -> C) (s : state V) n o fl zn,
+    flags_consistent s -> groups_closed s -> cvalue cv s n = Some zn ->
+    (forall a b, read s (nr n) = Some a -> read s (ni n) = Some b -> cv true (fst o) (snd o) = cv false a b) ->
+    (forall r' p' a b, fl = Some (r', p') ->
+       read (conv true n o s) (nr n) = Some a -> read (conv true n o s) (ni n) = Some b ->
+       cv true r' p' = cv true a b) ->
+    forall m z, cvalue cv s m = Some z -> cvalue cv (step s (StdPolar n o fl)) m = Some z.
+Proof. intros V C cv s n o fl zn. exact (std_polar_preserves_value cv s n o fl zn). Qed.
+Print Assumptions C16_std_polar_preserves_value.
+
+(* the two state conditions have an executable form [polar_safe]; [clean_hist] (evaluated by
+   vm_compute for every clean-stream history of the correspondence) demands it of every state along
+   the history, so the theorems above apply to each of those histories *)
+Theorem C16_polar_safe_sound :
+  forall (V : Type) (s : state V), polar_safe s = true -> flags_consistent s /\ groups_closed s.
+Proof. intros V s. exact (polar_safe_sound s). Qed.
+Print Assumptions C16_polar_safe_sound.
+
+Theorem C16_polar_hist_sound :
+  forall (V : Type) (safe : state V -> op V -> bool) h (s : state V),
+    hist_ok_inv safe polar_safe s h = true ->
+    forall k, (k <= List.length h)%nat ->
+      flags_consistent (run s (firstn k h)) /\ groups_closed (run s (firstn k h)).
+Proof. intros V safe h s. exact (polar_hist_sound safe h s). Qed.
+Print Assumptions C16_polar_hist_sound.
+
+(* not proved universally: that EVERY [tie_safe] history from [init] is polar_safe (it is computed per
+   generated history instead), and the std_polar_all / standard_complex folds (same argument as
+   C16_polar_switch_all_preserves_value). *)
+Definition C16_polar_history_full : Prop :=
+  forall (h : list (op Q)), hist_ok tie_safe init h = true -> hist_ok_inv tie_safe polar_safe init h = true.
+
+(* REFUTED without flags_consistent (known finding F7): `var_equal` on the component names of two
+   complex parameters, then xy2rp_all.  Whatever values the calls assign within their contract,
+   a = 3+4i reads (r1, p1) != (3, 4) afterwards - and the contracts are satisfiable. *)
+Theorem C16_polar_switch_refuted :
+  forall r1 p1 r2 p2 : R,
+    (r1 * cos p1 = 3 -> r1 * sin p1 = 4 -> r2 * cos p2 = r1 -> r2 * sin p2 = p1 ->
+     cvalue cvR (run init (f7_prefix 3 4)) "a" = Some (3, 4) /\
+     cvalue cvR (run init (f7_history 3 4 r1 p1 r2 p2)) "a" = Some (r1, p1) /\
+     (r1, p1) <> (3, 4))%R.
+Proof. exact polar_switch_refuted. Qed.
+Print Assumptions C16_polar_switch_refuted.
+
+Theorem C16_polar_contracts_satisfiable :
+  exists r1 p1 r2 p2 : R, (r1 * cos p1 = 3 /\ r1 * sin p1 = 4 /\ r2 * cos p2 = r1 /\ r2 * sin p2 = p1)%R.
+Proof. exact f7_contracts_satisfiable. Qed.
+Print Assumptions C16_polar_contracts_satisfiable.
+
+(* REFUTED with overlapping complex tie groups (known finding F12): after rp2xy on h the member
+   j2 of the second group still carries a polar flag although its cells already hold (x1, y1), so
+   its own rp2xy call converts them again: h finally reads what that call assigned *)
+Theorem C16_overlapping_groups_refuted :
+  forall r p x1 y1 x2 y2 : R,
+    cvalue cvR (run init (f12_prefix r p)) "h" = Some (r * cos p, r * sin p)%R /\
+    cvalue cvR (run init (f12_prefix r p)) "j2" = Some (r * cos p, r * sin p)%R /\
+    dget "j2" (cplx (step (run init (f12_prefix r p)) (Conv false "h" (x1, y1)))) = Some true /\
+    read (step (run init (f12_prefix r p)) (Conv false "h" (x1, y1))) "j2r" = Some x1 /\
+    cvalue cvR (run init (f12_history r p x1 y1 x2 y2)) "h" = Some (x2, y2).
+Proof. exact overlapping_groups_refuted. Qed.
+Print Assumptions C16_overlapping_groups_refuted.
+
+(* ---- bound transforms: mutually inverse on the allowed range, slope = analytic derivative *)
+Open Scope R_scope.
+Theorem C16_bound2_inverse :
+  forall a b, a < b ->
+    (forall y, a <= y <= b -> bx2y2 a b (by2x2 a b y) = y) /\
+    (forall x, - PI / 2 <= x <= PI / 2 -> by2x2 a b (bx2y2 a b x) = x) /\
+    (forall x, a <= bx2y2 a b x <= b).
+Proof.
+  intros a b H. split; [intros; apply bound2_inv_r; assumption|].
+  split; [intros; apply bound2_inv_l; assumption|intros; apply bound2_range; assumption].
+Qed.
+Print Assumptions C16_bound2_inverse.
+
+Theorem C16_bound_lower_inverse :
+  forall a,
+    (forall y, a <= y -> bx2y_lo a (by2x_lo a y) = y) /\
+    (forall x, 0 <= x -> by2x_lo a (bx2y_lo a x) = x) /\
+    (forall x, a <= bx2y_lo a x).
+Proof.
+  intros a. split; [intros; apply bound_lo_inv_r; assumption|].
+  split; [intros; apply bound_lo_inv_l; assumption|intros; apply bound_lo_range].
+Qed.
+Print Assumptions C16_bound_lower_inverse.
+
+Theorem C16_bound_upper_inverse :
+  forall b,
+    (forall y, y <= b -> bx2y_up b (by2x_up b y) = y) /\
+    (forall x, 0 <= x -> by2x_up b (bx2y_up b x) = x) /\
+    (forall x, bx2y_up b x <= b).
+Proof.
+  intros b. split; [intros; apply bound_up_inv_r; assumption|].
+  split; [intros; apply bound_up_inv_l; assumption|intros; apply bound_up_range].
+Qed.
+Print Assumptions C16_bound_upper_inverse.
+
+(* values outside the range are clamped to it by get_y2x *)
+Theorem C16_bound_clamps :
+  (forall a b y, a < b -> bx2y2 a b (by2x2 a b y) = bclamp2 a b y) /\
+  (forall a y, bx2y_lo a (by2x_lo a y) = bclamp_lo a y) /\
+  (forall b y, bx2y_up b (by2x_up b y) = bclamp_up b y).
+Proof.
+  split; [intros; apply bound2_roundtrip; assumption|].
+  split; [intros; apply bound_lo_roundtrip|intros; apply bound_up_roundtrip].
+Qed.
+Print Assumptions C16_bound_clamps.
+
+Theorem C16_bound_slope_is_derive :
+  (forall a b x, is_derive (bx2y2 a b) x (bdydx2 a b x)) /\
+  (forall a x, is_derive (bx2y_lo a) x (bdydx_lo x)) /\
+  (forall b x, is_derive (bx2y_up b) x (bdydx_up x)).
+Proof.
+  split; [intros; apply bound2_is_derive|]. split; [intros; apply bound_lo_is_derive|intros; apply bound_up_is_derive].
+Qed.
+Print Assumptions C16_bound_slope_is_derive.
+
+Theorem C16_bound_second_slope_is_derive :
+  (forall a b x, is_derive (bdydx2 a b) x (bd2y2 a b x)) /\
+  (forall x, is_derive bdydx_lo x (bd2y_lo x)) /\
+  (forall x, is_derive bdydx_up x (bd2y_up x)).
+Proof.
+  split; [intros; apply bound2_is_derive2|]. split; [intros; apply bound_lo_is_derive2|intros; apply bound_up_is_derive2].
+Qed.
+Print Assumptions C16_bound_second_slope_is_derive.
+Close Scope R_scope.
+
+(* ---- hypotheses are satisfiable ---- *)
+Example C16_example_untied :
+  untied_reals ["a"; "b"] (run (@init Q) [AddReal "a" 1%Q true true; AddReal "b" 2%Q true true]).
+Proof. intros n [<-|[<-|[]]]; vm_compute; split; reflexivity. Qed.
+Example C16_example_count_safe :
+  hist_ok count_safe (@init Q)
+    [AddReal "a" 1%Q true true; AddReal "b" 2%Q true false; SetFix "b" None 0%Q true; SetSame ["a"; "b"] false;
+     SetAllList [(5%Q, 5%Q)] false] = true.
+Proof. vm_compute. reflexivity. Qed.
+Example C16_example_polar_safe : hist_ok_inv tie_safe polar_safe init fc_example = true.
+Proof. exact fc_example_ok. Qed.
+Example C16_example_tie_reads :
+  all_dic (run (@init Q) [AddReal "a" 1%Q true true; AddReal "b" 2%Q true true; SetSame ["a"; "b"] false;
+                          SetAllList [(5%Q, 5%Q)] false]) = [("a", 5%Q); ("b", 5%Q)].
+Proof. vm_compute. reflexivity. Qed.
